@@ -40,7 +40,9 @@ def transport_id_dict(rng, kind=None):
     alphabet = "abcdefghijklmnopqrstuvwxyz0123456789.-:"
     if rng.random() < 0.15:
         alphabet += "éü中"                       # iSCSI names are UTF-8 (RFC 3722)
-    name = "iqn.2001-04.com.example:" + "".join(rng.choice(alphabet) for _ in range(ln))
+    # also names so short that the whole TransportID stays below 24 bytes (iqn.1986-03.io, eui.02004567A425678D minus a few)
+    prefix = rng.choice(["iqn.2001-04.com.example:", "iqn.2001-04.com.example:", "iqn.1986-03.io:", "iqn.2005-03.a", "eui."])
+    name = prefix + "".join(rng.choice(alphabet) for _ in range(ln if len(prefix) > 20 else rng.choice([0, 1, 2, 3, 4, 5, 9, 12])))
     d = dict(protocol_id=5, iscsi_name=name)
     s = name
     fmt = 0
@@ -57,6 +59,11 @@ def transport_id_dict(rng, kind=None):
 
 def check_transport_id(buf, want, where):
     """the TransportID at the start of buf: honest ADDITIONAL LENGTH, multiple of four, the expected bytes"""
+    # SPC also lets (strictly: makes) an initiator pad an iSCSI TransportID to 24 bytes; then ADDITIONAL LENGTH counts the padding too
+    if (want[0] & 0x0F) == 5 and len(want) < 24:
+        padded = want[:2] + (20).to_bytes(2, "big") + want[4:] + bytes(24 - len(want))
+        if bytes(buf) == padded:
+            return None
     if bytes(buf[:len(want)]) != want or len(buf) != len(want):
         if (buf[0] & 0x0F) == 5 and len(buf) >= 4:
             al = int.from_bytes(buf[2:4], "big")
